@@ -51,8 +51,10 @@ def gen_op(rng, gd, dist, layers, ic):
         return ("apply_path", {"state": st, "path": [rng.randrange(G.n_gens(gd)) for _ in range(3)]})
     if k < 0.9:
         return ("export", {})
-    if k < 0.95:
+    if k < 0.93:
         return ("modified_copy_bfs", {"central": st})
+    if k < 0.97:
+        return ("copy_queries", {"central": st, "start": list(rng.choice(verts)), "which": rng.choice(["modified_copy", "inverted"]), "mode": rng.choice(["simple", "advanced"])})
     return ("mitm_between", {"a": [st], "b": [list(rng.choice(verts))], "max_diameter": rng.choice([1, 3])})
 
 
@@ -60,6 +62,7 @@ def do_op(graph, gd, op, args):
     """Executes one operation; returns a canonical observable (deterministic ops) or a checked summary (randomised ops)."""
     import torch
     import cayleypy
+    from cayleypy import CayleyGraph
     from cayleypy.algo import MeetInTheMiddle
     try:
         if op == "bfs":
@@ -96,6 +99,23 @@ def do_op(graph, gd, op, args):
             g2 = graph.modified_copy(graph.definition.with_central_state(args["central"]))
             same_hash = canon(g2.hasher.make_hashes(g2.encode_states(args["central"]))) == canon(graph.hasher.make_hashes(graph.encode_states(args["central"])))
             return ("ok", [g2.bfs(max_diameter=3).layer_sizes, same_hash])
+        if op == "copy_queries":
+            # a derived copy answers as a graph constructed directly from the same definition and configuration would
+            if args["which"] == "modified_copy":
+                d2 = graph.definition.with_central_state(args["central"])
+                g2 = graph.modified_copy(d2)
+            else:
+                d2 = graph.definition.with_inverted_generators()
+                g2 = graph.with_inverted_generators
+            g3 = CayleyGraph(d2, device="cpu", **args["cfgd"])
+            out = []
+            for g in (g2, g3):
+                kw = {"start_state": args["start"], "beam_width": 10**6, "max_steps": 7, "beam_mode": args["mode"]}
+                r = g.beam_search(**kw)
+                own = canon(g.hasher.make_hashes(g.encode_states(g.central_state)).reshape(-1))
+                rec = canon(torch.as_tensor(g.central_state_hash).reshape(-1))
+                out.append([bool(r.path_found), int(r.path_length), own == rec])
+            return ("ok", out)
         if op == "mitm_between":
             r = MeetInTheMiddle.find_path_between(graph, args["a"], args["b"], max_diameter=args["max_diameter"])
             return ("ok", None if r is None else [canon(r.start_state), list(r.edges)])
@@ -134,6 +154,9 @@ def run(ctx):
         layers, dist = G.ref_bfs(gd, [gd["central"]])
         ic = G.is_inverse_closed_ref(gd)
         ops = [gen_op(rng, gd, dist, layers, ic) for _ in range(rng.randint(3, maxlen))]
+        verts_ = sorted(dist)
+        ops.insert(rng.randint(1, len(ops)), ("copy_queries", {"central": list(rng.choice(verts_)), "start": list(rng.choice(verts_)),
+                                                              "which": rng.choice(["modified_copy", "inverted"]), "mode": rng.choice(["simple", "advanced"])}))
         graph = G.make_graph(gd, cfgd)
         snap0 = snapshot(graph)
         kinds = {o for o, _ in ops}
@@ -144,8 +167,15 @@ def run(ctx):
             ctx.count("op_" + op)
             if rng.random() < 0.2:
                 G.make_graph(gd, dict(cfgd, random_seed=rng.randrange(1, 99)))   # interleaved construction reseeds the global RNG
+            if op == "copy_queries":
+                args["cfgd"] = cfgd
             got = do_op(graph, gd, op, args)
             fresh = do_op(G.make_graph(gd, cfgd), gd, op, args)
+            if op == "copy_queries" and got[0] == "ok" and (got[1][0] != got[1][1] or not got[1][0][2]):
+                ctx.violation("property_fails", f"operation #{j}: a derived copy ({args['which']}) answers a beam search / records its central hash differently from a graph "
+                              f"constructed directly from the same definition: copy {got[1][0]}, direct {got[1][1]} ([found, length, recorded hash = own hash])",
+                              dict(case, failing_index=j, got=str(got)[:300]), True)
+                break
             if got != fresh:
                 ctx.violation("property_fails", f"operation #{j} ({op}) returns something else after the earlier operations than on a fresh graph",
                               dict(case, failing_index=j, got=str(got)[:300], fresh=str(fresh)[:300]), True)
@@ -169,6 +199,8 @@ def replay(ctx, obj):
         for j, (op, args) in enumerate(case["ops"]):
             got = do_op(graph, gd, op, args)
             fresh = do_op(G.make_graph(gd, cfgd), gd, op, args)
+            if op == "copy_queries" and got[0] == "ok" and (got[1][0] != got[1][1] or not got[1][0][2]):
+                return f"operation #{j}: derived copy answers {got[1][0]}, a directly constructed graph {got[1][1]}"
             if got != fresh:
                 return f"operation #{j} ({op}) differs from a fresh graph: {str(got)[:150]} vs {str(fresh)[:150]}"
             if snapshot(graph) != snap0:
